@@ -21,8 +21,11 @@ def deci(xs: List[int], frac_rng: Optional[random.Random] = None) -> List[int]:
 
 
 def make_input(rng: random.Random, n_refs: int = 2, n_qry: int = 8, ref_labels=(80, 200), kinds=None,
-               decimals: bool = True, repeats: bool = False, lattice: int = 0, small_ids: bool = False) -> Dict:
-    """small_ids: references 1..n and queries 1..m (query ids collide with reference ids)"""
+               decimals: bool = True, repeats: bool = False, lattice: int = 0, small_ids: bool = False,
+               twins: bool = False) -> Dict:
+    """small_ids: references 1..n and queries 1..m (query ids collide with reference ids)
+    twins: some maps get a coincident label (two SiteIDs with the same Position: legal CMAP, e.g. two sites closer than
+    the 0.1 bp resolution of the file)"""
     refs = []
     shared = {}
     for rid in range(1, n_refs + 1):
@@ -171,6 +174,14 @@ def make_input(rng: random.Random, n_refs: int = 2, n_qry: int = 8, ref_labels=(
         qrys.append({"id": qid, "len": dx[-1] + rng.choice([1, 10, 3000, 50000]), "x": dx, "kind": kind,
                      "ref": ref["id"], "mirrored": mirrored})
         qid += 1 if small_ids else rng.randint(1, 9)
+    if twins:
+        for m in refs + qrys:
+            if len(m["x"]) >= 6 and rng.random() < 0.6:
+                for _ in range(rng.choice([1, 1, 2])):
+                    j = rng.randrange(2, len(m["x"]) - 2)
+                    m["x"].insert(j, m["x"][j])
+                    if "bp" in m and m["bp"]:
+                        m["bp"].insert(j, m["bp"][j])
     return {"refs": refs, "qrys": qrys}
 
 
